@@ -13,7 +13,8 @@ RULE = ("Hypothesis-generated (and, for short lengths, exhaustively enumerated) 
         "events over small alphabets of ids/route codes/statuses/tags/files/timestamps, fed to "
         "StreamToDict, StreamSummary and StreamToExtendedDecorator (one after the other, or all three alive "
         "at once and fed in lockstep; strings built at run time, never the interned literals) and compared with a reference "
-        "segmentation model written from the property statement. Non-trivial: >=2 test ids "
+        "segmentation model written from the property statement. Also: an earlier run on the same consumer objects, reports re-read after stopTestRun, the run bracket at the wrapped result, interleaved attachments with a text attachment cut inside a character and a file called 'traceback', 65..1100 tests in progress at once, attachments up to 3 x 1 MiB, naive / sub-second / non-UTC stamps. "
+        "Non-trivial: >=2 test ids "
         "interleaved (events of another key between first and last event of a key), or one id on two "
         "routes, or an id reused after a final status; distinct = distinct canonical event list.")
 ASSUMPTIONS = [
